@@ -103,6 +103,50 @@ func init() {
 	registerRows("C08", sameBlockProof)
 	registerRows("C07", sameBlockProof)
 
+	// ---- v1 contract whose unlock conditions carry a timelock: revisable in the block at that height (C08)
+	registerRows("C08", probeRow{"T2-v1-revision-timelock", func(w *World, n *Node) {
+		sc := n.fork()
+		if !sc.v1ok() || sc.child()+8 >= w.net.HardforkV2.RequireHeight || sc.child() < w.net.HardforkTax.Height {
+			return
+		}
+		funder, okf := pickSC(w, sc.ownedSC(true, true))
+		if !okf {
+			return
+		}
+		renter, host := w.wallets[0], w.wallets[len(w.wallets)-1]
+		c := &Contract{renter: renter, host: host}
+		T := sc.child() + uint64(w.tape.Range(2, 4))
+		uc := c.uc()
+		uc.Timelock = T
+		valid := types.Siacoins(2)
+		fc := types.FileContract{Filesize: 0, WindowStart: T + 4, WindowEnd: T + 7, UnlockHash: uc.UnlockHash(),
+			ValidProofOutputs:  []types.SiacoinOutput{{Value: valid, Address: renter.addrs[0].addr}},
+			MissedProofOutputs: []types.SiacoinOutput{{Value: valid, Address: types.VoidAddress}}}
+		fc.Payout = preTaxPayout(sc.s, fc, valid)
+		if fc.Payout.IsZero() || funder.SiacoinOutput.Value.Cmp(fc.Payout) < 0 || T+7 >= w.net.HardforkV2.RequireHeight {
+			return
+		}
+		_, ai := w.ownerOf(funder.SiacoinOutput.Address)
+		form := types.Transaction{SiacoinInputs: []types.SiacoinInput{{ParentID: funder.ID, UnlockConditions: *ai.uc}}, FileContracts: []types.FileContract{fc}}
+		if ch := funder.SiacoinOutput.Value.Sub(fc.Payout); !ch.IsZero() {
+			form.SiacoinOutputs = []types.SiacoinOutput{{Value: ch, Address: renter.addrs[0].addr}}
+		}
+		w.signAllV1(sc.s, &form)
+		if sc.mine([]types.Transaction{form}, nil) != nil {
+			return
+		}
+		id := form.FileContractID(0)
+		cc := *c
+		cc.id = id
+		w.boundary(sc, "T2-v1-revision-timelock", T, func(sc *scratch) ([]types.Transaction, []types.V2Transaction, bool) {
+			rev := fc
+			rev.RevisionNumber = 1
+			t := types.Transaction{FileContractRevisions: []types.FileContractRevision{{ParentID: id, UnlockConditions: uc, FileContract: rev}}}
+			w.signContractV1(sc.s, &t, &cc)
+			return []types.Transaction{t}, nil, true
+		}, fmt.Sprintf("revision of a v1 contract whose unlock conditions are locked until height %d", T))
+	}})
+
 	// ---- v2: two revisions in one block, the second judged against the first
 	inBlockRevisions := probeRow{"K5-v2-two-revisions-in-block", func(w *World, n *Node) {
 		sc := n.fork()
